@@ -443,9 +443,11 @@ Proof.
   { unfold total. destruct included; cbn [oneg option_map]; [apply sub_negate|reflexivity]. }
   rewrite ET. rewrite add_negate.
   set (tax := precise_or taxsum (rescale taxsum c)). set (twt := add total tax).
-  set (payable := match d_rounding d with Some r => add twt r | None => twt end).
-  assert (EPay : match oneg (d_rounding d) with Some r => add (negate twt) r | None => negate twt end = negate payable).
-  { unfold payable. destruct (d_rounding d); cbn [oneg option_map]; [apply add_negate|reflexivity]. }
+  rewrite (oneg_rescale (d_rounding d) c).
+  set (rounding := match d_rounding d with Some r => Some (rescale r c) | None => None end).
+  set (payable := match rounding with Some r => add twt r | None => twt end).
+  assert (EPay : match oneg rounding with Some r => add (negate twt) r | None => negate twt end = negate payable).
+  { unfold payable. destruct rounding; cbn [oneg option_map]; [apply add_negate|reflexivity]. }
   rewrite EPay.
   assert (EA : map (advance_amount c (negate twt)) (map prow_neg (d_advances d)) = map negate (map (advance_amount c twt) (d_advances d))).
   { rewrite !map_map. apply map_ext. intros r. apply advance_amount_negate. }
@@ -455,7 +457,7 @@ Proof.
   { rewrite !map_map. apply map_ext. intros r. apply due_amount_negate. }
   rewrite ED.
   cbn [result_neg]. unfold totals_neg.
-  cbn [t_lines t_sum t_discount t_charge t_tax_included t_total t_tax t_twt t_payable t_advances t_due t_dd t_cc t_adv_rows t_dues t_cats t_taxsum t_taxsum_precise].
+  cbn [t_lines t_sum t_discount t_charge t_tax_included t_total t_tax t_twt t_payable t_advances t_due t_dd t_cc t_adv_rows t_dues t_cats t_taxsum t_taxsum_precise t_rounding].
   rewrite map_present_neg, !present_ddcs_negate, !rescale_negate.
   f_equal. f_equal; try reflexivity;
     try apply oneg_rescale;
@@ -505,7 +507,7 @@ Definition drop_dues (r : calc_result) : calc_result :=
   match r with
   | Totals t => Totals (mkTotals (t_lines t) (t_sum t) (t_discount t) (t_charge t) (t_tax_included t) (t_total t)
                                  (t_tax t) (t_twt t) (t_payable t) (t_advances t) (t_due t) (t_dd t) (t_cc t)
-                                 (t_adv_rows t) [] (t_cats t) (t_taxsum t) (t_taxsum_precise t))
+                                 (t_adv_rows t) [] (t_cats t) (t_taxsum t) (t_taxsum_precise t) (t_rounding t))
   | r0 => r0
   end.
 
